@@ -426,6 +426,26 @@ def run(ctx):
                     return False
                 okc = okc or _stores_none(b)
                 ctx.check(okc, "R17.5", fnkey(b) + "#clears-thread-local", loc(b), "thread-local guard's clear fn does not reset the test sink to None")
+            # the guard (whose drop clears the slot) exists only once the installation has succeeded: built before it, a rejected second
+            # installation unwinds through the new guard and wipes the sink a live, earlier guard still stands for
+            def _stores_some(bd, depth=2):
+                for i_ in bd.live_blocks():
+                    for st_ in bd.stmts(i_):
+                        if st_["k"] == "assign" and [e[0] for e in st_["lhs"].get("p", [])] == ["deref"] and \
+                                "Option<metrique_writer_core::sink::BoxEntrySink>" in bd.local_ty(st_["lhs"]["l"]):
+                            o_ = Prov(bd).operand(st_["rv"]["op"]) if st_["rv"]["k"] == "use" else {("agg", st_["rv"].get("adt"), st_["rv"].get("variant"))}
+                            if any((x[0] == "agg" and x[2] == "Some") or x[0] == "arg" for x in o_):
+                                return True
+                if depth > 0:
+                    return any(_stores_some(x_, depth - 1) for c_ in bd.calls() for x_ in list(local_callee_bodies(F, c_)) + list(closure_args(F, c_)) if x_.crate == SM)
+                return False
+            installs = [c for c in pb.calls() if c is not n and any(hb.crate == SM and hb.kind != "Closure" and _stores_some(hb) for hb in local_callee_bodies(F, c))]
+            if installs:
+                pdom = pb.dominators()
+                ctx.check(all(dominates(pb, c.bb, n.bb, pdom) and c.bb != n.bb for c in installs), "R17.5", fnkey(pb) + "#guard-built-after-install", loc(pb, n.bb),
+                          "the thread-local test-sink guard is constructed before the sink is installed: if the installation is rejected (a sink is already "
+                          "installed on this thread) the unwinding drops the new guard, which clears the slot of the earlier, still live guard - entries of this "
+                          "thread then go to another destination", "install dominates the construction of the guard")
     ctx.floor("R17.5", "clear fns handed to the thread-local test-sink guard", nclear, 1)
     # compile-fail witnesses (type-level part of the property), discharged by rustc's type checker
     from mq import witness as _w
